@@ -459,18 +459,103 @@ def d_json(c):
             "structname": hx(U(p["structname"])), "schema": hx(U(p["template-schema"]))}
 
 
-def run_driver(ctx, cases):
-    t0 = time.time()
-    try:
-        p = run([ctx.bins["drv_tmpl"]], inp=json.dumps([d_json(c) for c in cases]).encode(), timeout=60 + len(cases) // 20)
-    except subprocess.TimeoutExpired:
-        return None, time.time() - t0
-    if p.returncode != 0:
-        raise RuntimeError("drv_tmpl failed: " + p.stderr.decode(errors="replace")[-2000:])
-    outs = json.loads(p.stdout)
-    for o in outs:
+STALL = 10.0        # bound on one resolver call / one mockery run (wall clock): first stage
+CONFIRM = 100.0     # second stage: exactly that case again, alone, with a 10x longer bound
+MEM_KB = 4000000    # address-space limit of every implementation process (a spinning resolver may also grow)
+MAX_CONFIRM = 3     # confirmations per run
+
+
+class Timeouts:
+    """Every timeout-derived verdict is two-stage: a case that exceeds the bound while everything else is
+    running is run again alone with CONFIRM seconds; only a second timeout is a hang."""
+    def __init__(self):
+        self.retried = self.confirmed = self.skipped = 0
+        self.notes = []
+
+    def may_confirm(self):
+        return self.retried < MAX_CONFIRM and self.confirmed == 0
+
+
+def drv_batch(ctx, cases, stall, first_extra=30.0):
+    """One driver process on [cases]. -> (results of the calls that returned, 'done' | 'stall' | 'crash: ..')"""
+    import queue, threading
+    p = subprocess.Popen(["bash", "-c", "ulimit -v %d; exec %s" % (MEM_KB, ctx.bins["drv_tmpl"])],
+                         stdin=subprocess.PIPE, stdout=subprocess.PIPE, stderr=subprocess.PIPE)
+    data = json.dumps([d_json(c) for c in cases]).encode()
+    q, errbuf = queue.Queue(), []
+
+    def feed():
+        try:
+            p.stdin.write(data)
+            p.stdin.close()
+        except OSError:
+            pass
+
+    def read():
+        for line in p.stdout:
+            q.put(line)
+        q.put(None)
+    ths = [threading.Thread(target=feed, daemon=True), threading.Thread(target=read, daemon=True),
+           threading.Thread(target=lambda: errbuf.append(p.stderr.read()), daemon=True)]
+    for t in ths:
+        t.start()
+    outs, status = [], "done"
+    while len(outs) < len(cases):
+        try:
+            line = q.get(timeout=stall + (first_extra if not outs else 0))    # the first answer includes start-up and decoding the input
+        except queue.Empty:
+            status = "stall"
+            break
+        if line is None:
+            p.wait()
+            status = "crash: exit %s %s" % (p.returncode, (errbuf[0] if errbuf else b"").decode(errors="replace")[-300:])
+            break
+        o = json.loads(line)
         if o["k"] == "ok":
             o["v"] = [bytes.fromhex(x).decode("latin-1") for x in o["v"]]
+        outs.append(o)
+    if p.poll() is None:
+        p.kill()
+    p.wait()
+    return outs, status
+
+
+def run_driver(ctx, cases, tmo):
+    """All resolver calls, in order. A call that does not answer within STALL seconds is run again alone
+    (two-stage).  -> (one result per case, seconds); result kinds beyond the driver's own:
+    'hang' (confirmed), 'skipped-timeout' (not confirmed: budget used), 'notrun' (stream stopped)."""
+    t0 = time.time()
+    outs, i = [None] * len(cases), 0
+    while i < len(cases):
+        got, status = drv_batch(ctx, cases[i:], STALL)
+        outs[i:i + len(got)] = got
+        i += len(got)
+        if status == "done" or i >= len(cases):
+            break
+        if status == "stall":
+            if tmo.may_confirm():
+                tmo.retried += 1
+                dbg("resolver call %d exceeded %.0f s; running it alone with %.0f s" % (i, STALL, CONFIRM))
+                got2, st2 = drv_batch(ctx, [cases[i]], CONFIRM, first_extra=0)
+                if got2:
+                    outs[i] = dict(got2[0], retried=True)
+                elif st2 == "stall":
+                    tmo.confirmed += 1
+                    outs[i] = {"k": "hang"}
+                else:
+                    outs[i] = {"k": "other", "m": "driver process ended while running this case alone: " + st2}
+            else:
+                tmo.skipped += 1
+                outs[i] = {"k": "skipped-timeout"}
+        else:
+            outs[i] = {"k": "other", "m": "driver process ended in this call: " + status}
+        stop = outs[i]["k"] == "hang" or tmo.skipped > 5
+        i += 1
+        if stop:                      # a confirmed hang (or a hopelessly slow machine): every further self reference would cost another bound
+            tmo.notes.append("resolver stream stopped after call %d (%s); %d calls not run" % (i - 1, outs[i - 1]["k"], len(cases) - i))
+            for j in range(i, len(cases)):
+                outs[j] = {"k": "notrun"}
+            break
     return outs, time.time() - t0
 
 
@@ -502,8 +587,8 @@ def d_oracle(c, o):
     fails = []
     if o["k"] in ("panic", "other"):
         return ["resolver %s: %s" % (o["k"], o.get("m", ""))], None
-    if o.get("cpu_ms", 0) > 10000:
-        fails.append("resolver call used %d ms of CPU time" % o["cpu_ms"])
+    if o["k"] == "hang":
+        return ["ParseTemplates did not return within %.0f s, and not within %.0f s when this call was run again alone" % (STALL, CONFIRM)], None
     vars = doc_vars(c["name"] if c["iface"] else None, c["file"], c["pkgname"], c["pkgpath"], c["params"]["structname"],
                     c["template"], c["config"], c["abs_cd"], c["cwd"])
     if uses_idr(c["params"]) and c["iface"] and vars["InterfaceDirRelative"] is None:
@@ -540,24 +625,27 @@ def self_refs(params):
     return params["structname"].count(".StructName")
 
 
-def run_growth_witness(ctx, c, mem_kb=4000000, timeout=90):
+def run_growth_witness(ctx, c, mem_kb=MEM_KB, timeout=150):
     """One resolver call in its own process under an address-space limit (the value would need tens of GB).
-    -> normalised symptom"""
+    -> normalised symptom.  Everything that is not a clean answer of the resolver is the listed symptom class
+    (how the process dies depends on the machine): 'oom-crash' (Go runtime: out of memory), 'killed-by-limit'
+    (any other abnormal end: signal, kernel OOM killer, allocation failure), 'timeout-at-limit' (still growing
+    when the time is up).  A clean answer ('answer-infinite', 'answer-ok', ..) is a CHANGE of the symptom."""
     try:
         p = run(["bash", "-c", "ulimit -v %d; exec %s" % (mem_kb, ctx.bins["drv_tmpl"])],
                 inp=json.dumps([d_json(c)]).encode(), timeout=timeout)
     except subprocess.TimeoutExpired:
-        return "hang"
+        return "timeout-at-limit"
     err = p.stderr.decode(errors="replace")
-    if p.returncode != 0:
-        return "oom-crash" if "out of memory" in err else "crash:" + err[-200:]
     try:
-        o = json.loads(p.stdout)[0]
+        o = json.loads(p.stdout.decode(errors="replace").strip().split("\n")[0])
     except Exception:
-        return "unreadable"
-    if o.get("cpu_ms", 0) > 10000:
-        return "slow"
-    return "error-" + o["k"] if o["k"] != "ok" else "ok"
+        o = None
+    if p.returncode != 0 or o is None:
+        return "oom-crash" if "out of memory" in err else "killed-by-limit"
+    if o["k"] == "panic":
+        return "oom-crash" if "out of memory" in o.get("m", "") else "killed-by-limit"
+    return "answer-" + o["k"]
 
 
 # ------------------------------------------------------------------ binary stream
@@ -853,7 +941,7 @@ PROBE_RE = re.compile(rb"^// VERIF-MOCK (\S+) (\S+)$", re.M)
 PKG_RE = re.compile(rb"^package (\S+)", re.M)
 
 
-def b_run(ctx, c, R, schema_path):
+def b_run(ctx, c, R, schema_path, timeout=STALL):
     """Run mockery once. -> observation dict"""
     shutil.rmtree(R, ignore_errors=True)
     P = b_materialize(c, R, schema_path)
@@ -865,7 +953,7 @@ def b_run(ctx, c, R, schema_path):
     for k in list(env):
         if k.startswith("MOCKERY_"):
             env.pop(k)
-    args = [ctx.bins["mockery"]]
+    args = ["bash", "-c", 'ulimit -v %d; exec "$0" "$@"' % MEM_KB, ctx.bins["mockery"]]
     if P["env"]:
         env["MOCKERY_CONFIG"] = P["env"]
     if P["flag"]:
@@ -873,11 +961,11 @@ def b_run(ctx, c, R, schema_path):
     env["PWD"] = P["cwd"]
     t0 = time.time()
     try:
-        p = subprocess.run(args, cwd=P["cwd"], env=env, stdout=subprocess.PIPE, stderr=subprocess.PIPE, timeout=10)
+        p = subprocess.run(args, cwd=P["cwd"], env=env, stdout=subprocess.PIPE, stderr=subprocess.PIPE, timeout=timeout)
         rc, hang = p.returncode, False
         tail = (p.stdout + p.stderr).decode(errors="replace")[-1500:]
     except subprocess.TimeoutExpired:
-        rc, hang, tail = None, True, "timeout after 10 s"
+        rc, hang, tail = None, True, "timeout after %.0f s" % timeout
     files = []
     for d, _, fs in os.walk(R):
         for f in fs:
@@ -896,7 +984,7 @@ def b_oracle(c, R, exp, obs):
     """-> (failures, symptom) ; symptom classifies the failure for the known-findings list"""
     fails = []
     if obs["hang"]:
-        return ["mockery did not finish within 10 s"], "hang"
+        return ["mockery did not finish within %.0f s, and not within %.0f s when this run was repeated alone" % (STALL, CONFIRM)], "hang"
     if re.search(r"panic:|goroutine \d+ \[", obs["tail"]):
         return ["mockery crashed: " + obs["tail"][-300:]], "panic"
     if exp[0] == "skip":
@@ -1070,13 +1158,12 @@ def check(ctx, only=None):
 
     dbg("witnesses", len(witnesses_b))
     # ---------------- driver stream
-    outs, secs = run_driver(ctx, dcases) if dcases else ([], 0)
-    if outs is None:
-        rp = ctx.write_replay("driver-hang", {"what": "ParseTemplates did not return: the driver was killed after %.0f s" % secs,
-                                              "cases": len(dcases)})
-        ctx.violation(rp)
-        outs = []
-        dcases = []
+    tmo = Timeouts()
+    outs, secs = run_driver(ctx, dcases, tmo) if dcases else ([], 0)
+    # calls that were not judged (timeout not confirmed because the budget was used, or stream stopped) are left out
+    live = [i for i, o in enumerate(outs) if o["k"] not in ("skipped-timeout", "notrun")]
+    dcases = [dict(dcases[i], nocoq=True) if outs[i]["k"] == "hang" else dcases[i] for i in live]
+    outs = [outs[i] for i in live]
     dbg("driver done", secs)
     d_fail = {}
     for i, (c, o) in enumerate(zip(dcases, outs)):
@@ -1119,12 +1206,31 @@ def check(ctx, only=None):
         _ex.shutdown()
         dbg("growth witness", sym)
         if re.fullmatch(kf_g[0]["symptom"], sym):
-            ctx.known("structname mentioning itself 3 times grows like 3^passes: the resolver process ends with '%s' under a 4 GB address-space limit instead of reporting the infinite loop" % sym)
+            ctx.known("structname mentioning itself 3 times grows like 3^passes: under a %d kB address-space limit the resolver process does not report the infinite loop (it ends abnormally or is still growing at the time limit)" % MEM_KB)
         else:
-            rp = ctx.write_replay("growth-witness", {"what": "known finding C11-exponential-self-reference: expected symptom %s, observed '%s'" % (kf_g[0]["symptom"], sym),
+            rp = ctx.write_replay("growth-witness", {"what": "known finding C11-exponential-self-reference: listed symptom class %s, observed '%s' (a clean answer of the resolver: the symptom changed)" % (kf_g[0]["symptom"], sym),
                                                      "case": d_replay(gw, root)})
             ctx.violation(rp)
-    dbg("runs done")
+    # two-stage timeouts: a run that exceeded STALL seconds in the parallel phase is repeated alone
+    drop = set()
+    for k, (R, exp, obs) in enumerate(bres):
+        if not obs["hang"]:
+            continue
+        if tmo.may_confirm():
+            tmo.retried += 1
+            dbg("run %d exceeded %.0f s; repeating it alone with %.0f s" % (k, STALL, CONFIRM))
+            obs2 = b_run(ctx, allb[k][0], R, exp[2] if exp[0] in ("ok", "either") else None, timeout=CONFIRM)
+            if obs2["hang"]:
+                tmo.confirmed += 1
+            bres[k] = (R, exp, obs2)
+        else:
+            tmo.skipped += 1
+            drop.add(k)
+    if drop:
+        tmo.notes.append("%d runs exceeded %.0f s and were not repeated (confirmation budget used)" % (len(drop), STALL))
+        allb = [x for k, x in enumerate(allb) if k not in drop]
+        bres = [x for k, x in enumerate(bres) if k not in drop]
+    dbg("runs done", "timeouts retried/confirmed/skipped", tmo.retried, tmo.confirmed, tmo.skipped)
     b_fail, b_terms, b_known = {}, [], []
     for k, ((c, wit), (R, exp, obs)) in enumerate(zip(allb, bres)):
         f, sym = b_oracle(c, R, exp, obs)
@@ -1166,17 +1272,21 @@ def check(ctx, only=None):
         shown += 1
         (c, wit), (R, exp, obs) = allb[k], bres[k]
         small = c
-        if not wit:
+        if not wit and not obs["hang"]:
             def still(cc, R=R):
                 try:
                     e = b_expect(cc, R)
                 except TUnsup:
                     return False
-                o2 = b_run(ctx, cc, R, e[2] if e[0] in ("ok", "either") else None)
-                return bool(b_oracle(cc, R, e, o2)[0])
+                o2 = b_run(ctx, cc, R, e[2] if e[0] in ("ok", "either") else None, timeout=3 * STALL)
+                return not o2["hang"] and bool(b_oracle(cc, R, e, o2)[0])
             small = b_shrink(ctx, c, R, still)
             exp = b_expect(small, R)
-            obs = b_run(ctx, small, R, exp[2] if exp[0] in ("ok", "either") else None)
+            obs2 = b_run(ctx, small, R, exp[2] if exp[0] in ("ok", "either") else None, timeout=CONFIRM)
+            if obs2["hang"] or not b_oracle(small, R, exp, obs2)[0]:
+                small, exp = c, bres[k][1]                 # keep the original failing run
+            else:
+                obs = obs2
         rp = ctx.write_replay("oracle-run-%d" % k, {
             "what": b_oracle(small, R, exp, obs)[0] or b_fail[k], "stream": "mockery binary in a scratch module",
             "witness_stream": wit, "bcase": small, "readable": b_describe(small, R, obs, exp)})
@@ -1231,6 +1341,10 @@ def check(ctx, only=None):
                        extra={"histogram": hist, "resolver_calls": len(dcases), "binary_runs": len(allb), "witness_runs": len(witnesses_b),
                               "resolver_mismatches": len(d_bad), "run_mismatches": len(b_bad), "oracle_failures": len(d_fail) + len(b_fail),
                               "outside_subset": len(d_uns), "driver_seconds": round(secs, 2),
+                              "timeouts_retried": tmo.retried, "timeouts_confirmed": tmo.confirmed, "timeouts_skipped": tmo.skipped,
+                              "timeout_rule": "first stage %.0f s per resolver call / mockery run while everything runs in parallel; a case over the bound is run again alone with %.0f s; only a second timeout is a hang; at most %d confirmations per run, none after a confirmed hang" % (STALL, CONFIRM, MAX_CONFIRM),
+                              "timeout_notes": tmo.notes,
+                              "max_call_cpu_ms": max([o.get("cpu_ms", 0) for o in outs] or [0]),
                               "max_run_seconds": max([r[2]["secs"] for r in bres] or [0])},
                        assumptions=["resolver stream: drv_tmpl builds a config.Config with the five values and calls ParseTemplates with a synthetic *packages.Package (types.NewPackage) and config.Interface",
                                     "text/template is modelled for: text, {{ pipeline }} of fields, double-quoted strings without escapes and calls of lower/upper/trimPrefix/trimSuffix/base/dir/clean; the generator stays inside this subset (checked: outside_subset = 0)",
